@@ -368,14 +368,14 @@ def run(ctx):
         import gen_inputs
         al = gen_inputs.param_assignments(p, ctx.rng, 4)
         keyA, keyB = al[0], al[1]
-        # quick: a fifth of the words of length 5; thorough: every word of length 5 and a fifth of those of length 6
+        # quick: a fifth of the words of length 5; thorough: every word of length 5 and 8 % of those of length 6
         allw = itertools.product(alphabet, repeat=5) if ctx.tier == 'quick' else \
             itertools.chain(itertools.product(alphabet, repeat=5), itertools.product(alphabet, repeat=6))
         again = [w for w in itertools.product(['A', 'T', 'a', 'adv<', 'adv>', 'poll', 'run'], repeat=4) if w[0] == 'A' and 'T' in w]
         for word in itertools.chain(allw, again):
             if word[0] not in ('A', 'B'):
                 continue            # words are taken modulo leading idle events
-            if 'T' not in word and (ctx.tier == 'quick' or len(word) == 6) and ctx.rng.random() > 0.2:
+            if 'T' not in word and (ctx.tier == 'quick' or len(word) == 6) and ctx.rng.random() > (0.2 if ctx.tier == 'quick' else 0.08):
                 continue
             try:
                 st = run_word(pname, keyA, keyB, word)
